@@ -630,7 +630,8 @@ func (r *RootAssertionNode) AddComputation(expr ast.Expr) {
 			// add a consumption on the annotation of the i-th parameter of `fdecl` and the
 			// expression `expr` to the root node.
 			if len(exprArgs) == 1 {
-				if argFunc, ok := exprArgs[0].(*ast.CallExpr); ok {
+				// The sole argument may be parenthesized, e.g., `foo((bar()))`.
+				if argFunc, ok := ast.Unparen(exprArgs[0]).(*ast.CallExpr); ok {
 					handleArgFuncIdent := func(argFuncIdent *ast.Ident) bool {
 						if r.isFunc(argFuncIdent) {
 							funcObj := r.ObjectOf(argFuncIdent).(*types.Func)
